@@ -225,7 +225,11 @@ func runConc(run *ev.Run, id string, bound, perScenarioSecs int) bool {
 	truncated := 0
 	var execs, points, preempted int64
 	names := []string{}
-	parallel(len(scs), time.Time{}, func(i int) {
+	// total budget of the concurrent part: four per-scenario budgets (scenarios run 16 at a time); scenarios that cannot start within
+	// it are reported as cut, never as explored
+	started := make([]bool, len(scs))
+	_, allStarted := parallel(len(scs), time.Now().Add(time.Duration(4*perScenarioSecs)*time.Second), func(i int) {
+		started[i] = true
 		sc := scs[i]
 		cmd := exec.Command(exe, id, "--conc-worker", strconv.Itoa(i), strconv.Itoa(bound), strconv.Itoa(perScenarioSecs))
 		cmd.Env = append(os.Environ(), "GOMAXPROCS=1")
@@ -265,6 +269,13 @@ func runConc(run *ev.Run, id string, bound, perScenarioSecs int) bool {
 			run.Violate(v.Clause, "concurrent", []string{"scenario=" + sc.Name, fmt.Sprintf("thread=%d", v.Thread)}, map[string]any{"detail": v.Detail}, concReplay{sc.Name, v.Schedule})
 		}
 	})
+	if !allStarted {
+		for _, st := range started {
+			if !st {
+				truncated++
+			}
+		}
+	}
 	sort.Strings(names)
 	run.Set("concurrent_part", map[string]any{"engine": "controlled scheduler, statement granularity, one fresh provider per schedule", "scenarios": len(scs), "preemption_bound": bound,
 		"schedules": execs, "scheduling_points": points, "schedules_with_preemption": preempted, "scenarios_cut_by_budget": truncated, "scenario_names": names})
